@@ -130,7 +130,7 @@ class RegistryServer(object):
             if magic != "RPYC":
                 self.logger.warn("invalid magic: %r", magic)
                 continue
-            cmdfunc = getattr(self, "cmd_%s" % (cmd.lower(),), None)
+            cmdfunc = getattr(self, "cmd_%s" % (cmd.lower(),), None) if isinstance(cmd, str) else None
             if not cmdfunc:
                 self.logger.warn("unknown command: %r", cmd)
                 continue
